@@ -33,7 +33,7 @@ CNS = Fn(A, "create_next_state", home="C02", implicit_props=("C09", "C02", "C05"
           note="C09 envelope: fee pool + tips + the batch's fees fit in u128 (MEL supply <= 2^127)"),
     ],
     ensures=[
-        C("coins", "res is Ok ==> batch_coins(next_state.coins@.coins, res->Ok_0.coins@.coins, transactions@, relevant_coins@)", "C02", "C01", "C19"),
+        C("coins", "res is Ok ==> batch_coins(next_state.coins@.coins, res->Ok_0.coins@.coins, transactions@, relevant_coins@)", "C02", "C01", "C19", "C03"),
         C("frame", """res is Ok ==> res->Ok_0.network == next_state.network && res->Ok_0.height == next_state.height && res->Ok_0.history == next_state.history
                && res->Ok_0.fee_multiplier == next_state.fee_multiplier && res->Ok_0.dosc_speed == next_state.dosc_speed
                && res->Ok_0.pools == next_state.pools && res->Ok_0.stakes == next_state.stakes""", "C02", "C05", "C17"),
@@ -120,7 +120,7 @@ CNS = Fn(A, "create_next_state", home="C02", implicit_props=("C09", "C02", "C05"
 )
 
 UNIT = Unit(
-    name="apply", uses="group_core_axioms, axiom_marker_not_output, axiom_marker_inj",
+    name="apply", lemma_obs=['lemma_phases_to_batch', 'lemma_batch_perm', 'lemma_fees_perm'], uses="group_core_axioms, axiom_marker_not_output, axiom_marker_inj",
     prelude=["core.rs", "raw.rs", "iter.rs", "crypto.rs", "state_abs.rs"],
     lemmas=["sums.rs", "iterlem.rs", "coinsview.rs", "tips.rs", "apply.rs"],
     items=[
